@@ -645,7 +645,7 @@ def main(pid):
         rep.bounds["types"] = "6 xobject types (static struct, struct with dynamic array + nested struct, 1-D and 2-D scalar arrays, Int32 array, struct holding a union reference), 20 probe kernels; 10 scalar types at their extremes (enumerated)"
         rep.bounds["histories"] = "creation of 8 objects in one buffer, then <= 3 steps of {grow by a SOLVER amount, allocate a SOLVER size, three more arrays}; serial and OpenMP (2 threads) contexts"
         rep.bounds["outside_claim"] = ["what the compiled C code does with the pointers (concrete probe kernels only)", "scalar conversion and refusals are decided by execution, not by the solver", "GPU contexts", "BufferByteArray as kernel argument storage"]
-        rep.stubs = ["S1", "S2", "S9", "S12"]
+        rep.stubs = ["S1", "S2", "S9", "S15"]
     if pid in ("C18", "C19", "C20"):
         rep.bounds["types"] = f"{rep.extra['types_in_catalogue']} type expressions / hybrid class definitions (enumerated; hybrid: scalars with and without declared defaults, strings, scalar arrays of 1-3 axes with and without declared defaults, nested hybrid classes to depth 3, references to hybrid classes, renamed fields)"
         rep.bounds["values"] = "value families of C01 plus: equal to the declared defaults (all / nested classes only / equal only under broadcasting), zeros and empty texts (enumerated)"
@@ -663,13 +663,13 @@ def main(pid):
         "explicit offset: caller guarantees the region is inside the buffer and not free",
     ]
     if not rep.stubs:
-        rep.stubs = ["S1", "S2", "S9"] + (["S10", "S11"] if pid in ("C18", "C19", "C20") else [])
+        rep.stubs = ["S1", "S2", "S9"] + (["S13", "S14"] if pid in ("C18", "C19", "C20") else [])
     if pid in ("C18", "C19", "C20"):
         rep.assumptions += [
-            "S10: pickle's object protocol (reduce_ex(4), __getstate__/__setstate__ or instance __dict__, one memo, classes by reference) is run by copy.deepcopy over the real classes with by-value leaves (solver terms; the write-log as the buffer's bytes); the real pickle runs in the concrete validation pass and in replays",
-            "S11: typed NumPy views of a symbolic buffer are write-back arrays (an element assignment through the view or a view of it is stored to the write-log)",
+            "S13: pickle's object protocol (reduce_ex(4), __getstate__/__setstate__ or instance __dict__, one memo, classes by reference) is run by copy.deepcopy over the real classes with by-value leaves (solver terms; the write-log as the buffer's bytes); the real pickle runs in the concrete validation pass and in replays",
+            "S14: typed NumPy views of a symbolic buffer are write-back arrays (an element assignment through the view or a view of it is stored to the write-log)",
             "the default context of to_dict(copy_to_cpu=True) is a symbolic context during the symbolic run",
         ]
     if pid == "C17":
-        rep.assumptions += ["S12: ffi.from_buffer(x) = address of the first byte of x; ffi.cast(ctype, address) = typed pointer; numpy.frombuffer(storage).ctypes.data = address of the storage; storage[start:] = view record; the compiled function is a recorder performing cffi's pointer type check against the declared signature; validated by the concrete pass with real compiled probe kernels"]
+        rep.assumptions += ["S15: ffi.from_buffer(x) = address of the first byte of x; ffi.cast(ctype, address) = typed pointer; numpy.frombuffer(storage).ctypes.data = address of the storage; storage[start:] = view record; the compiled function is a recorder performing cffi's pointer type check against the declared signature; validated by the concrete pass with real compiled probe kernels"]
     return rep.finish()
